@@ -214,10 +214,13 @@ impl PathTpc {
                 for (prev, curr) in link.headings.windows(2).map(|x| (&x[0], &x[1])) {
                     let length = curr.offset - prev.offset;
 
-                    let curvature = (-uc::REV / 2.0
-                        + (curr.heading - prev.heading + uc::REV / 2.0) % uc::REV)
-                        .abs()
-                        / length;
+                    // heading change wrapped into [-REV / 2, REV / 2): `%` keeps the sign of its left
+                    // operand, so a negative remainder is brought back into [0, REV) first
+                    let mut heading_change = (curr.heading - prev.heading + uc::REV / 2.0) % uc::REV;
+                    if heading_change < si::Angle::ZERO {
+                        heading_change += uc::REV;
+                    }
+                    let curvature = (heading_change - uc::REV / 2.0).abs() / length;
                     let one_degree = uc::DEG / (uc::FT * 100.0);
 
                     let res_coeff = if curvature < one_degree {
